@@ -495,8 +495,15 @@ func checkPassphraseChange(c *Ctx, rule string) {
 			f := edgeFactOf(b, si)
 			if f != nil && f.Kind == "true" && isResultOfCall(f.V, "IsLocked", -1) {
 				for _, ins := range b.Succs[si].Instrs {
-					if call, ok := ins.(*ssa.Call); ok && calleeShort(&call.Call) == "Zero" {
-						okLockedZero = true
+					call, ok := ins.(*ssa.Call)
+					if !ok || calleeShort(&call.Call) != "Zero" {
+						continue
+					}
+					// the key being zeroed must be the NEW master key, i.e. the value that is later installed as m.masterKeyPriv
+					for _, st := range storesToFieldOwner(cp, "Manager", "masterKeyPriv") {
+						if st.Val == call.Call.Args[0] {
+							okLockedZero = true
+						}
 					}
 				}
 			}
